@@ -33,6 +33,9 @@ type c14Src struct {
 	left2        int    // receive-side stream offset (mcast-write)
 	empty        []bool // datagram i is empty (reads of it complete at once with n=0 or EOF)
 	recvIdx      int
+	later        [][]byte // datagrams held back: sent one at a time once a read of this source is parked in the poller
+	laterTo      syscall.Sockaddr
+	mcWaiting    bool
 }
 
 func runC14(c *vf.Case) {
@@ -134,17 +137,27 @@ func runC14(c *vf.Case) {
 			if k == "udp-readfrom" {
 				sa, _ := syscall.Getsockname(o.Raw)
 				emptyBurst := r.Chance(1, 4) // a run of empty datagrams: each read of one completes at once without data
+				upfront := s.left
+				if r.Chance(1, 3) {
+					// the rest arrives only after a read, issued from inside a completion callback, has been parked
+					upfront = r.Range(2, s.left)
+				}
+				s.laterTo = sa
 				for i, full := 0, 0; i < s.left; i++ {
+					var d []byte
 					if r.Chance(1, 6) || (emptyBurst && i >= 10 && i < 60) {
 						s.empty = append(s.empty, true)
-						_ = syscall.Sendto(o.Peer, nil, 0, sa)
-						continue
+					} else {
+						s.empty = append(s.empty, false)
+						d = make([]byte, s.datagramSize)
+						vf.GenFill(d, s.gen, full*s.datagramSize)
+						full++
 					}
-					s.empty = append(s.empty, false)
-					d := make([]byte, s.datagramSize)
-					vf.GenFill(d, s.gen, full*s.datagramSize)
-					full++
-					_ = syscall.Sendto(o.Peer, d, 0, sa)
+					if i < upfront {
+						_ = syscall.Sendto(o.Peer, d, 0, sa)
+					} else {
+						s.later = append(s.later, d)
+					}
 				}
 			}
 		case "mcast-read", "mcast-write":
@@ -168,17 +181,26 @@ func runC14(c *vf.Case) {
 			if k == "mcast-read" {
 				emptyBurst := r.Chance(1, 4)
 				to := &syscall.SockaddrInet4{Addr: [4]byte{127, 0, 0, 1}, Port: p.LocalAddr().Port}
+				upfront := s.left
+				if r.Chance(1, 3) {
+					upfront = r.Range(2, s.left)
+				}
+				s.laterTo = to
 				for i, full := 0, 0; i < s.left; i++ {
+					var d []byte
 					if r.Chance(1, 6) || (emptyBurst && i >= 10 && i < 60) {
 						s.empty = append(s.empty, true)
-						_ = syscall.Sendto(peer, nil, 0, to)
-						continue
+					} else {
+						s.empty = append(s.empty, false)
+						d = make([]byte, s.datagramSize)
+						vf.GenFill(d, s.gen, full*s.datagramSize)
+						full++
 					}
-					s.empty = append(s.empty, false)
-					d := make([]byte, s.datagramSize)
-					vf.GenFill(d, s.gen, full*s.datagramSize)
-					full++
-					_ = syscall.Sendto(peer, d, 0, to)
+					if i < upfront {
+						_ = syscall.Sendto(peer, d, 0, to)
+					} else {
+						s.later = append(s.later, d)
+					}
 				}
 			}
 		}
@@ -191,7 +213,7 @@ func runC14(c *vf.Case) {
 	L := min(total, r.Range(100, 2000))
 	c.Logf("chain of %d operations over %v", L, chosen)
 	done := 0
-	zeroLen, emptyReads, refusedFileOps := 0, 0, 0
+	zeroLen, emptyReads, refusedFileOps, parkedThenFed := 0, 0, 0, 0
 	// deepest nesting at which a completion callback ran, separately for the callbacks of regular-file operations
 	// refused at the bound (they run inside the start call, one level above the bound: part of the listed finding)
 	deepest, deepestRefusedFile := 0, 0
@@ -341,6 +363,7 @@ func runC14(c *vf.Case) {
 			s.mc.AsyncRead(buf, func(err error, n int, _ netip.AddrPort) {
 				w.EnterCB()
 				noteDepth(false)
+				s.mcWaiting = false
 				calls++
 				deferred := returned
 				idx := s.recvIdx
@@ -371,6 +394,9 @@ func runC14(c *vf.Case) {
 				w.LeaveCB()
 			})
 			returned = true
+			if calls == 0 {
+				s.mcWaiting = true
+			}
 		case "mcast-write":
 			buf := make([]byte, s.datagramSize)
 			vf.GenFill(buf, s.gen, s.off)
@@ -405,6 +431,16 @@ func runC14(c *vf.Case) {
 			return
 		}
 		for _, s := range srcs {
+			if len(s.later) > 0 && ((s.kind == "udp-readfrom" && s.o.Rd != nil) || (s.kind == "mcast-read" && s.mcWaiting)) {
+				// a read issued from inside a completion callback found nothing and is parked: its datagram arrives now
+				fd := s.mcPeer
+				if s.kind == "udp-readfrom" {
+					fd = s.o.Peer
+				}
+				_ = syscall.Sendto(fd, s.later[0], 0, s.laterTo)
+				s.later = s.later[1:]
+				parkedThenFed++
+			}
 			if (s.kind == "tcp-write" || s.kind == "fifo-write") && s.o != nil {
 				w.PeerDrain(s.o)
 			}
@@ -444,35 +480,69 @@ func runC14(c *vf.Case) {
 			c.SoftFailf("nesting-deeper-than-dispatch-limit/regular-file-refused-at-the-bound", "a regular-file operation started at the bound was refused by epoll and its callback ran inside the start call, at nesting depth %d (limit %d + the one dispatched by the poller)", deepestRefusedFile, limit)
 		}
 	}
-	// Operations that complete immediately WITH AN ERROR unwind the depth accounting like successful ones: after the
-	// chain, every object is driven into a state where its operations fail inside the start call (accept with the
-	// descriptor table exhausted, read/write on a reset connection, read on a FIFO whose writer left, write on a FIFO
-	// whose reader left, datagram too long for UDP) and k of them are started from top level.
+	// Operations that complete immediately WITH AN ERROR are counted and unwound like successful ones: after the chain,
+	// every object is driven into a state where its operations fail inside the start call (accept with the descriptor
+	// table exhausted, read/write on a reset connection, read on a FIFO whose writer left, write on a FIFO whose reader
+	// left, datagram too long for UDP). k of them are started - from top level one after the other, or (half of the
+	// time) each from the callback of the previous one, which nests them up to the bound like any other chain.
 	if !c.Failed() && len(w.InFlight()) == 0 {
 		for _, s := range srcs {
 			if c.Failed() {
 				break
 			}
+			chained := r.Bool()
 			k := r.Range(1, 40)
-			inlineErrors, started := 0, 0
-			count := func(op *sim.Op) {
-				if op.Err != nil && !op.Started {
+			if chained {
+				k = r.Range(20, 90)
+			}
+			inlineErrors, started, completed := 0, 0, 0
+			deepestBefore := deepest
+			var issue func() bool // starts one operation; false when the object cannot take one
+			onDone := func(err error, inline bool) {
+				noteDepth(false)
+				completed++
+				if err != nil && inline {
 					inlineErrors++
 				}
-				c.Logf("  %s after the fault: err=%v n=%d deferred=%v", s.kind, op.Err, op.N, op.Started)
+				if chained && started < k && !c.Failed() {
+					issue()
+				}
+			}
+			simDone := func(op *sim.Op) {
+				if completed == 0 {
+					c.Logf("  %s after the fault: err=%v n=%d deferred=%v chained=%v", s.kind, op.Err, op.N, op.Started, chained)
+				}
+				onDone(op.Err, !op.Started)
+			}
+			body := func() {
+				if chained {
+					issue()
+					for it := 0; it < 400 && completed < started && !c.Failed(); it++ {
+						w.Poll()
+					}
+				} else {
+					for i := 0; i < k && len(w.InFlight()) == 0; i++ {
+						if !issue() {
+							break
+						}
+					}
+				}
 			}
 			switch s.kind {
 			case "accept":
 				for i := 0; i < 3; i++ {
 					_ = w.PeerConnect(s.o)
 				}
-				withLimit(3, func() { // every new descriptor number would be >= 3: accept(2) fails with EMFILE
-					for i := 0; i < k && len(w.InFlight()) == 0; i++ {
-						w.NextOnDone = count
-						w.StartAccept(s.o, sim.BNone, nil, false)
-						started++
+				issue = func() bool {
+					if s.o.Rd != nil {
+						return false
 					}
-				})
+					started++
+					w.NextOnDone = simDone
+					w.StartAccept(s.o, sim.BNone, nil, false)
+					return true
+				}
+				withLimit(3, body) // every new descriptor number would be >= 3: accept(2) fails with EMFILE
 			case "tcp-read", "tcp-write", "fifo-read", "fifo-write":
 				dir := 0
 				if strings.HasSuffix(s.kind, "write") {
@@ -483,41 +553,59 @@ func runC14(c *vf.Case) {
 				} else {
 					w.PeerClose(s.o)
 				}
-				for i := 0; i < k && len(w.InFlight()) == 0; i++ {
-					w.NextOnDone = count
+				issue = func() bool {
+					if (dir == 0 && s.o.Rd != nil) || (dir == 1 && s.o.Wr != nil) {
+						return false
+					}
+					started++
 					size := 8
 					if dir == 0 {
 						size = 1 << 16 // the first reads drain what is still buffered, the following ones fail
 					}
+					w.NextOnDone = simDone
 					w.StartStream(s.o, dir, false, size, sim.BNone, nil, false)
-					started++
+					return true
 				}
+				body()
 			case "udp-writeto":
-				for i := 0; i < k && len(w.InFlight()) == 0; i++ {
-					w.NextOnDone = count
-					w.StartPacket(s.o, 1, 70000, sim.BNone, nil, false)
+				issue = func() bool {
+					if s.o.Wr != nil {
+						return false
+					}
 					started++
+					w.NextOnDone = simDone
+					w.StartPacket(s.o, 1, 70000, sim.BNone, nil, false)
+					return true
 				}
+				body()
 			case "mcast-write":
-				for i := 0; i < k; i++ {
+				issue = func() bool {
+					started++
 					returned := false
 					s.mc.AsyncWrite(make([]byte, 70000), netip.AddrPortFrom(netip.AddrFrom4([4]byte{127, 0, 0, 1}), uint16(s.mcPort)), func(err error, n int) {
-						if err != nil && !returned {
-							inlineErrors++
-						}
+						w.EnterCB()
+						onDone(err, !returned)
+						w.LeaveCB()
 					})
 					returned = true
-					started++
+					return true
 				}
+				body()
 			default:
 				continue
 			}
 			c.Count("operations_completed_inline_with_an_error", inlineErrors)
+			if chained {
+				c.Count("error_completions_issued_from_the_previous_ones_callback", completed)
+			}
 			if inlineErrors > 0 {
 				c.Cover("inline_error_kinds", s.kind)
 			}
 			if w.IOC.Dispatched != 0 {
-				c.Failf("dispatched-counter-not-zero-after-unwinding", "IO.Dispatched=%d at top level after %d %s operations were started of which %d completed inside the start call with an error", w.IOC.Dispatched, started, s.kind, inlineErrors)
+				c.Failf("dispatched-counter-not-zero-after-unwinding", "IO.Dispatched=%d at top level after %d %s operations were started (chained from callbacks: %v) of which %d completed inside the start call with an error", w.IOC.Dispatched, started, s.kind, chained, inlineErrors)
+			}
+			if deepest > limit+1 && deepest > deepestBefore {
+				c.Failf("nesting-deeper-than-dispatch-limit", "%d completion callbacks were nested on the stack while %s operations that fail at once were re-issued from their callbacks (limit %d + the one dispatched by the poller)", deepest, s.kind, limit)
 			}
 			for it := 0; it < 50 && len(w.InFlight()) > 0; it++ {
 				w.Poll()
@@ -530,6 +618,7 @@ func runC14(c *vf.Case) {
 	c.Count("chain_operations", done)
 	c.Count("zero_length_operations", zeroLen)
 	c.Count("reads_of_empty_datagrams", emptyReads)
+	c.Count("reads_parked_inside_a_callback_and_completed_by_the_poller", parkedThenFed)
 	hops := 0
 	for k, v := range deferredHops {
 		c.Count("deferred_hops_"+k, v)
@@ -549,7 +638,7 @@ func init() {
 	register(&vf.Check{
 		ID:        "C14",
 		Technique: "runtime monitor: harness nesting counter around every completion callback + byte-generator check of the results of operations deferred at the dispatch bound + IO.Dispatched inspected at top level, over long chains of immediately completable operations re-issued from their own callbacks",
-		Rule: "cases = chains of 100-2000 immediately completable operations, each started from the previous one's callback, hopping by PRNG between 1-5 sources from {TCP read with buffered data and 1-16 byte buffers, TCP write, FIFO read, FIFO write, regular-file read and write through Open, accept with a queued backlog, UDP AsyncReadFrom / AsyncWriteTo, multicast peer AsyncRead / AsyncWrite}; one datagram in six (or a run of 50) is empty, 1 in 12 socket/FIFO operations is zero-length; the chain continues through the deferred hop; afterwards each object is driven into a state where its operations fail inside the start call (accept under RLIMIT_NOFILE=3, read/write after RST, FIFO end gone, EMSGSIZE) and 1-40 of them are started; the nesting depth is tracked per callback; " +
+		Rule: "cases = chains of 100-2000 immediately completable operations, each started from the previous one's callback, hopping by PRNG between 1-5 sources from {TCP read with buffered data and 1-16 byte buffers, TCP write, FIFO read, FIFO write, regular-file read and write through Open, accept with a queued backlog, UDP AsyncReadFrom / AsyncWriteTo, multicast peer AsyncRead / AsyncWrite}; one datagram in six (or a run of 50) is empty, 1 in 12 socket/FIFO operations is zero-length; the chain continues through the deferred hop; afterwards each object is driven into a state where its operations fail inside the start call (accept under RLIMIT_NOFILE=3, read/write after RST, FIFO end gone, EMSGSIZE) and 1-90 of them are started, from top level or each from the callback of the previous one; the nesting depth is tracked per callback; " +
 			"non-trivial = the chain hit the dispatch bound at least once (a deferred hop); distinct = (mix of sources, number of deferred hops)",
 		Assumptions: []string{
 			"the multicast peer is exercised with unicast datagrams on 127.0.0.1 (its AsyncRead/AsyncWrite paths are the same)",
